@@ -174,13 +174,31 @@ func checkC08(w *World, r *Report) {
 				if w.pathOf(c.Args[0]) == "P0.children" {
 					if mc, ok := c.Args[1].(*ssa.MakeClosure); ok {
 						cf := mc.Fn.(*ssa.Function)
-						for _, b := range cf.Blocks {
-							for _, in := range b.Instrs {
-								if st, ok := in.(*ssa.Store); ok && len(cf.Params) == 2 && st.Val == ssa.Value(cf.Params[1]) {
-									if _, isIdx := st.Addr.(*ssa.IndexAddr); isIdx {
-										okC = true
-									}
+						cg := w.FG(cf)
+						slot := make([]bool, len(cg.ins))
+						bump := make([]bool, len(cg.ins))
+						for i, in := range cg.ins {
+							if st, ok := in.(*ssa.Store); ok && len(cf.Params) == 2 && st.Val == ssa.Value(cf.Params[1]) {
+								if ia, isIdx := st.Addr.(*ssa.IndexAddr); isIdx && strings.HasPrefix(w.pathOf(ia.Index), "FV:") {
+									slot[i] = true
 								}
+							}
+							if st, ok := in.(*ssa.Store); ok {
+								if p := w.pathOf(st.Val); strings.HasPrefix(p, "(FV:") && strings.HasSuffix(p, "+K:1)") {
+									bump[i] = true
+								}
+							}
+						}
+						// each child goes into its own slot: store at the counter, then advance it, once per call
+						okC = cg.Once(slot) && cg.Once(bump)
+						for _, sn := range members(slot) {
+							if !cg.After(sn, bump) {
+								okC = false
+							}
+						}
+						for _, bn := range members(bump) {
+							if !cg.Before(slot, bn) {
+								okC = false
 							}
 						}
 						// the returned slice is the one the closure fills
